@@ -465,7 +465,8 @@ class ServerRaceExec:
                     raise
                 usable = type(e).__name__      # (the message contains the id, a memory address)
         held.clear()
-        left = [k for k in server.id_to_obj if k != '0']
+        left = len([k for k in server.id_to_obj if k != '0'])      # (ids are memory addresses: count them only)
+        errs = [(n, t) for n, t, _ in errs]
         return dict(live=live, hosted=hosted, count=count, usable=usable, errs=errs, left_after_all_dropped=left)
 
     def observe(self, r):
